@@ -350,7 +350,9 @@ RULE = ('A case is a dataset directory written to disk (built once with the real
         'row of every file, the version line, the element-type field of the three descriptor files) is replaced by a '
         'payload: Python expressions with side effects (touch a marker file, __import__, os.system, lambda, exec), '
         'every whitelisted element-type name with and without np./numpy. prefix, near misses, paths, huge and odd '
-        'numbers, format strings, empty, comma (arity change), comment sign, unicode. Non-trivial = the payload field '
+        'numbers, format strings, empty, comma (arity change), comment sign, unicode; an accepted name embedded in a longer field '
+        '(str(type) / repr(dtype) wrappers with and without code after them, text before / after, brackets, quotes, calls, '
+        'unicode and case look-alikes) on the load and on the upgrade path. Non-trivial = the payload field '
         'is reached by the reader (its file is opened); distinct = distinct (operation, dataset variant, file, row, '
         'column, payload).')
 TRUSTED = ['CPython audit events (PEP 578) are raised for compile/exec/import/open/os.*/shutil.*/socket.*/subprocess.* '
@@ -679,6 +681,36 @@ P_DOTTED = ([('dotted-stdlib', m + '.' + a) for m, a in zip(DOTTED_MODULES, ['Li
 P_CALL = [('call', x) for x in ("dtype('f4')", 'float(1)', 'Sensor()', "int('4')", 'str(1)', 'len(())')]
 P_GENERAL = P_CODE + P_PATH + P_NUM + P_FMT + P_MISC + P_DTYPE_OK[:6] + P_DTYPE_NEAR[:6] + P_CALL
 P_DTYPE_ALL = P_DTYPE_OK + P_DTYPE_NEAR + P_CODE + P_PATH[:4] + P_NUM[:4] + P_FMT[:6] + P_MISC[:6]
+# K. an accepted name EMBEDDED in a longer field: the shapes that a partial match accepts (re.match without an end anchor,
+#    re.search, startswith / endswith / in, a strip of "decorations" before the lookup): str(type) / repr(dtype) wrappers
+#    with and without text after them, brackets, quotes, calls, attribute tails, code before / after the name
+_REPR_NAMES = ['numpy.' + n for n in ('float16', 'float32', 'float64', 'int8', 'int16', 'int32', 'int64', 'uint8', 'uint16',
+                                     'uint32', 'uint64')] + ['float', 'int']        # what str(type) shows between the quotes
+_TAIL_CODE = ".__import__('os').system('touch %s')" % MARKER
+W_REPR = ["<class '{n}'>" + _TAIL_CODE, "<class '{n}'>", "<class '{n}'>x", "<class '{n}'>.type", "<class '{n}'> or " + _TOUCH,
+          "<class '{n}'>()", "<class '{n}'><class 'evil'>", "<type '{n}'>", "<type '{n}'>" + _TAIL_CODE, "<class '{n}'",
+          "class '{n}'>", "<class {n}>", "<class \"{n}\">", "dtype('{n}')", "dtype({n})", "numpy.dtype('{n}').type",
+          "dtype('{n}')" + _TAIL_CODE, "<{n}>", "'{n}'>", "x<class '{n}'>", _TOUCH + " or <class '{n}'>"]
+W_EMBED = ['{n}' + _TAIL_CODE, '{n} or ' + _TOUCH, '{n};' + _TOUCH, _TOUCH + ' or {n}', _TOUCH + ';{n}', '({n})', '[{n}]',
+           '{{n}}', "'{n}'", '"{n}"', '{n}.type', '{n}.__name__', '{n}(0)', '{n}()', '{n} x', 'x {n}', 'x{n}', '{n}x',
+           '{n}\x00x', '\x00{n}', '{n}.', '.{n}', '{n}:4', '{n}=4', '{n}|{n}', '{n}.{n}', 'np.{n}.x', '{n}-', '-{n}', '{n}/x',
+           '../{n}', '{n}\\', '${n}', '%{n}', '{n}\u200b', '\ufeff{n}', '{n}\u00a0x', '{n}\u3000' + _TOUCH]
+# unicode look-alikes of accepted names (NFKC / casefold / \w and \d in a regular expression make them equal)
+P_DTYPE_LOOKALIKE = [('dtype-lookalike', x) for x in (
+    'float\uff13\uff12', '\uff46\uff4c\uff4f\uff41\uff54\uff13\uff12', 'uint\uff18', 'u\u0131nt8', 'uin\u1d6b8', 'float\u00b3\u00b2', 'int\u0668',
+    '\ufb02oat32', 'np\uff0efloat32', 'numpy\u2024uint8', 'FLOAT', 'Int', 'UINT8', 'Np.uint8', 'NUMPY.float64', 'fl\u00adoat',
+    'float\u0033\u20e3\u0032', '\u0130nt8', 'int\u2078')]
+
+
+def _embedded(rng, wrappers, names, k):
+    """k payloads per wrapper: the wrapper around an accepted name"""
+    out = []
+    for w in wrappers:
+        for n in rng.sample(names, k):
+            out.append(('dtype-repr' if ('<' in w or 'dtype(' in w) else 'dtype-embed', w.replace('{n}', n)))
+    return out
+
+
 _FS, _FD, _FB = '\uff0f', '\uff0e', '\uff3c'          # FULLWIDTH SOLIDUS / FULL STOP / REVERSE SOLIDUS
 P_LOOKALIKE = [('lookalike', x) for x in (
     _FD * 2 + _FS + _FD * 2 + _FS + _FD * 2 + _FS + 'escaped',                 # NFKC -> ../../../escaped
@@ -781,6 +813,24 @@ def gen_cases(rng, tier):
         for j, tgt in enumerate(dt_up):
             if big or (j == i % len(dt_up) and (i % 2 == 0 or pcls.startswith('code'))) or pcls == 'code-touch':
                 mk('upgrade', v10, tgt, pcls, pl, 'v10', rng.choice([[None, None, None], [None, None, None], ['k', 'd', 'g']]))
+    # K. an accepted name embedded in a longer field (str(type) wrappers, text before / after, brackets, look-alikes): every
+    #    wrapper on the upgrade path (rotating over the three 1.0 files, every file for the str(type)+code shape) and on the
+    #    load path (rotating over the descriptor files)
+    ok_names = [n for _, n in P_DTYPE_OK]
+    emb = (_embedded(rng, W_REPR, _REPR_NAMES, 3 if big else 1) + _embedded(rng, W_REPR[:8], ok_names, 2 if big else 1)
+           + _embedded(rng, W_EMBED, ok_names, 3 if big else 1) + P_DTYPE_LOOKALIKE)
+    for i, (pcls, pl) in enumerate(emb):
+        r = rng.randrange(12)
+        for j, tgt in enumerate(dt_up):
+            if big or j == (i + r) % len(dt_up) or pl.endswith("'>" + _TAIL_CODE):
+                sub = v10 if (big and rng.random() < 0.3) else _subset(v10, ('sensors/sensors.txt', 'sensors/records_camera.txt',
+                                                                             'reconstruction/keypoints/', os.path.dirname(tgt[0]) + '/'))
+                mk('upgrade', sub, tgt, pcls, pl, 'v10' if sub is v10 else 'v10-one-kind',
+                   [None, None, None] if (i + j) % 4 else ['k', 'd', 'g'])
+        for j, tgt in enumerate(dt_load):
+            if big or j == (i + r) % len(dt_load):
+                var, tree = _variant_for(rng, full, tgt[0], 0.9)
+                mk('load', tree, tgt, pcls, pl, var)
     # dsize and the other columns of the descriptor files
     for tgt0 in dt_load + dt_up:
         p = tgt0[0]
@@ -1323,7 +1373,12 @@ LEVEL_TEXT = ('Theorems in coq/Props/C16.v hold for every directory tree (any ro
               'model is a Read of a path under the root, taken from a set of candidate paths fixed by the directory shape alone; '
               'every effect of the upgrade model is a Read/Write/Delete under the root; no Eval/Spawn/Import/Net exists in either; '
               'parse_dtype accepts exactly the 13 whitelisted names (optionally prefixed np./numpy.), round-trips what the writers '
-              'emit, and a descriptor file with any other element type makes the load end in Error (EBadDtype file field). The model '
+              'emit, accepts no string with a byte outside a-z 0-9 . (so no wrapper, bracket, quote, call, upper case or unicode '
+              'look-alike around an accepted name), no text after an accepted name but the digits of another one and none before it but '
+              'np. / numpy. / u; a descriptor file with any other element type makes the load end in Error (EBadDtype file field) and '
+              'an upgrade that returns a value found a whitelisted element type in each 1.0 descriptor file it converted. On a probe '
+              'universe of ~4500 candidate fields handed to the four real readers on this run (Gen/Tdtypes.v) the code accepts '
+              'exactly what parse_dtype accepts (kernel evaluation). The model '
               'is tied to the code by running kapture_from_dir / upgrade_1_0_to_1_1_inplace in a subprocess under an audit hook on '
               'datasets with crafted fields and comparing effect trace and outcome class inside Coq.')
 LEVEL_NOTE = ('Partial with respect to the runtime: effects that raise no audit event (stat probes of content-derived paths, '
